@@ -8,10 +8,27 @@
      spent   = [ value script ]
      alg     = [0 script?] | [1 script? script?] | [2 ext_flag] | [3]
      op      = [0 alg idx ht] | [1 k txout] | [2 k txin spent] | [3 k seq] | [4 locktime] | [5 k [item..]]
-   Result of a digest call: [ alg preimage? digest ], digest an int (legacy, BIP143) or bytes. *)
+   Result of a digest call: [ alg preimage? digest ], digest an int (legacy, BIP143) or bytes.
+   Signature sites (Model/SighashSig.v, primitives = Model/Pecc.v on secp256k1):
+     op_checksig / op_checkmultisig / op_checksig_schnorr / op_checksigadd_schnorr
+                         tx spent idx [stack item.., top last]  ->  the stack afterwards, or ERR
+     get_sig_legacy      tx spent idx secret script?            ->  signature bytes
+     get_sig_segwit      tx spent idx secret script? script?
+     get_sig_taproot     tx spent idx secret ext_flag hash_type aux
+     check_sig_legacy    tx spent idx sec der script?           ->  0/1
+     check_sig_segwit    tx spent idx sec der script? script?
+     verify_input        tx spent idx                           ->  0/1
+     sign_input          tx spent idx secret compressed script? hash_type
+     sign_p2pkh / sign_p2wpkh / sign_p2sh_p2wpkh   tx spent idx secret compressed
+     sign_p2tr_keypath   tx spent idx secret hash_type aux
+                         ->  [ script_sig [witness-item..] verdict ] of the signed input
+     sign_many           tx spent [[idx secret compressed script? hash_type]..]
+                         ->  [ [[script_sig [witness-item..]]..per input] [verdict..per step] [verdict..per input] ]
+     taproot_sig_rule    sig  ->  [] (BIP341: invalid) or [[sig64 hash_type]]  (Spec/SigHashType.v) *)
 From Coq Require Import String.
-From V Require Import Base.Prelude Base.Ints Base.Disp Model.Helper Model.Script Model.Tx
-  Model.Pecc Model.Sighash Model.SighashAbs Spec.TxData Spec.SighashStd.
+From V Require Import Base.Prelude Base.Ints Base.Disp Model.Helper Model.Script Model.Op Model.Interp
+  Model.Pecc Model.Tx Model.Sighash Model.SighashAbs Model.SighashSig Spec.TxData Spec.SighashStd
+  Spec.SigHashType.
 Open Scope string_scope.
 Open Scope Z_scope.
 
@@ -119,6 +136,22 @@ Definition vout (o : sh_out) : val := VL [VI (so_alg o); vopt_b (so_pre o); vdig
 
 Definition res_is_ok {A} (r : result A) : bool := match r with Ok _ => true | Err => false end.
 
+Definition vcmd (c : cmd) : val := match c with Op o => VI o | Push b => VB b end.
+Definition vscript (s : script) : val :=
+  VL [VL (map vcmd (s_cmds s)); match s_raw s with Some r => VL [VB r] | None => VL [] end].
+Definition voutcome (o : outcome) : val :=
+  match o with OTrue => VI 1 | OFalse => VI 0 | OSpecial => VI 2 end.
+Definition dec_bool (z : Z) : bool := negb (z =? 0).
+Definition dec_step (v : val) : option (nat * Z * bool * option script * Z) :=
+  match v with
+  | VL [VI idx; VI secret; VI compressed; r; VI ht] =>
+      match dec_nat idx, dec_opt_script r with
+      | Some i, Some r' => Some (i, secret, dec_bool compressed, r', ht)
+      | _, _ => None
+      end
+  | _ => None
+  end.
+
 Section Inst.
 Variable H : oracle.
 Definition h256 := o_hash256 H.
@@ -126,6 +159,25 @@ Definition s256 := o_sha256 H.
 Definition tsh := tagged_hash s256 tag_tapsighash.
 Definition tlf := tagged_hash s256 tag_tapleaf.
 Definition xok (b : bytes) : bool := res_is_ok (parse_xonly secp256k1 b).
+
+(* the signature sites of Model/SighashSig.v with the primitives of Model/Pecc.v on secp256k1 *)
+Definition prims : sigprims := pecc_prims secp256k1 (o_hmac_sha256 H) s256 200.
+Definition sites_ops (t : tx) (sp : list spent) (idx : nat) : sigops :=
+  tx_sigops h256 s256 tsh tlf xok prims t sp idx memo_empty.
+(* the Python stack has its top LAST *)
+Definition run_stack_op (f : sigops -> stack -> result stack) (t : tx) (sp : list spent) (idx : nat)
+  (st : list bytes) : val :=
+  vres (fun s => vbl (rev s)) (f (sites_ops t sp idx) (rev st)).
+Definition vsigned (idx : nat) (r : result (tx * outcome)) : val :=
+  vres (fun '(t', o) =>
+          match nth_error (t_ins t') idx with
+          | Some ti => VL [vscript (i_script ti); vbl (i_witness ti); voutcome o]
+          | None => VErr
+          end) r.
+Definition SITES {A} (f : (bytes -> bytes) -> (bytes -> bytes) -> (bytes -> bytes) -> (bytes -> bytes) ->
+                          (bytes -> bool) -> sigprims -> curve ->
+                          (bytes -> bytes) -> (bytes -> bytes) -> (bytes -> bytes) -> A) : A :=
+  f h256 s256 tsh tlf xok prims secp256k1 (o_ripemd160 H) (o_sha1 H) (o_hash160 H).
 
 (* the specification evaluated on the transaction denoted by the arguments *)
 Definition spec_sig_hash (t : tx) (sp : list spent) (idx : nat) (ht : Z) : result val :=
@@ -212,6 +264,123 @@ Definition dispatch (H : oracle) (fn : list Z) (args : list val) : val :=
                                   {| ob_tx := t'; ob_spent := sp'; ob_memo := memo_empty |} ops' in
             VL (map (vres vout) outs)
         | _, _, _ => bad_args
+        end
+    | _ => bad_args end
+  else if fn_is "op_checksig" fn || fn_is "op_checkmultisig" fn || fn_is "op_checksig_schnorr" fn
+          || fn_is "op_checksigadd_schnorr" fn then
+    match args with
+    | [t; sp; VI idx; VL st] =>
+        match dec_tx t, dec_spents sp, dec_nat idx, dec_list dec_bytes st with
+        | Some t', Some sp', Some i, Some st' =>
+            run_stack_op H (if fn_is "op_checksig" fn then op_checksig
+                            else if fn_is "op_checkmultisig" fn then op_checkmultisig
+                            else if fn_is "op_checksig_schnorr" fn then op_checksig_schnorr
+                            else op_checksigadd_schnorr) t' sp' i st'
+        | _, _, _, _ => bad_args
+        end
+    | _ => bad_args end
+  else if fn_is "get_sig_legacy" fn then
+    match args with
+    | [t; sp; VI idx; VI secret; r] =>
+        match dec_tx t, dec_spents sp, dec_nat idx, dec_opt_script r with
+        | Some t', Some sp', Some i, Some r' =>
+            vres_b (get_sig_legacy (h256 H) (prims H) t' sp' i secret r')
+        | _, _, _, _ => bad_args
+        end
+    | _ => bad_args end
+  else if fn_is "get_sig_segwit" fn then
+    match args with
+    | [t; sp; VI idx; VI secret; r; w] =>
+        match dec_tx t, dec_spents sp, dec_nat idx, dec_opt_script r, dec_opt_script w with
+        | Some t', Some sp', Some i, Some r', Some w' =>
+            vres_b (get_sig_segwit (h256 H) (prims H) t' sp' i memo_empty secret r' w')
+        | _, _, _, _, _ => bad_args
+        end
+    | _ => bad_args end
+  else if fn_is "get_sig_taproot" fn then
+    match args with
+    | [t; sp; VI idx; VI secret; VI ext; VI ht; VB aux] =>
+        match dec_tx t, dec_spents sp, dec_nat idx with
+        | Some t', Some sp', Some i =>
+            vres_b (get_sig_taproot (s256 H) (tsh H) (tlf H) xok (prims H) t' sp' i memo_empty secret ext ht aux)
+        | _, _, _ => bad_args
+        end
+    | _ => bad_args end
+  else if fn_is "check_sig_legacy" fn then
+    match args with
+    | [t; sp; VI idx; VB sec; VB der; r] =>
+        match dec_tx t, dec_spents sp, dec_nat idx, dec_opt_script r with
+        | Some t', Some sp', Some i, Some r' =>
+            vres_bool (check_sig_legacy (h256 H) (prims H) t' sp' i sec der r')
+        | _, _, _, _ => bad_args
+        end
+    | _ => bad_args end
+  else if fn_is "check_sig_segwit" fn then
+    match args with
+    | [t; sp; VI idx; VB sec; VB der; r; w] =>
+        match dec_tx t, dec_spents sp, dec_nat idx, dec_opt_script r, dec_opt_script w with
+        | Some t', Some sp', Some i, Some r', Some w' =>
+            vres_bool (check_sig_segwit (h256 H) (prims H) t' sp' i memo_empty sec der r' w')
+        | _, _, _, _, _ => bad_args
+        end
+    | _ => bad_args end
+  else if fn_is "verify_input" fn then
+    match args with
+    | [t; sp; VI idx] =>
+        match dec_tx t, dec_spents sp, dec_nat idx with
+        | Some t', Some sp', Some i =>
+            vres voutcome (SITES H (@tx_verify_input) t' sp' i memo_empty)
+        | _, _, _ => bad_args
+        end
+    | _ => bad_args end
+  else if fn_is "sign_input" fn then
+    match args with
+    | [t; sp; VI idx; VI secret; VI compressed; r; VI ht] =>
+        match dec_tx t, dec_spents sp, dec_nat idx, dec_opt_script r with
+        | Some t', Some sp', Some i, Some r' =>
+            vsigned i (SITES H (@sign_input) t' sp' i memo_empty secret (dec_bool compressed) r' ht)
+        | _, _, _, _ => bad_args
+        end
+    | _ => bad_args end
+  else if fn_is "sign_p2pkh" fn || fn_is "sign_p2wpkh" fn || fn_is "sign_p2sh_p2wpkh" fn then
+    match args with
+    | [t; sp; VI idx; VI secret; VI compressed] =>
+        match dec_tx t, dec_spents sp, dec_nat idx with
+        | Some t', Some sp', Some i =>
+            vsigned i
+              ((if fn_is "sign_p2pkh" fn then SITES H (@sign_p2pkh)
+                else if fn_is "sign_p2wpkh" fn then SITES H (@sign_p2wpkh)
+                else SITES H (@sign_p2sh_p2wpkh)) t' sp' i memo_empty secret (dec_bool compressed))
+        | _, _, _ => bad_args
+        end
+    | _ => bad_args end
+  else if fn_is "sign_p2tr_keypath" fn then
+    match args with
+    | [t; sp; VI idx; VI secret; VI ht; VB aux] =>
+        match dec_tx t, dec_spents sp, dec_nat idx with
+        | Some t', Some sp', Some i =>
+            vsigned i (SITES H (@sign_p2tr_keypath) t' sp' i memo_empty secret ht aux)
+        | _, _, _ => bad_args
+        end
+    | _ => bad_args end
+  else if fn_is "sign_many" fn then
+    match args with
+    | [t; sp; VL steps] =>
+        match dec_tx t, dec_spents sp, dec_list dec_step steps with
+        | Some t', Some sp', Some st =>
+            vres (fun '(t2, os, vs) =>
+                    VL [VL (map (fun ti => VL [vscript (i_script ti); vbl (i_witness ti)]) (t_ins t2));
+                        VL (map voutcome os); VL (map voutcome vs)])
+                 (SITES H (@sign_many_verify_all) t' sp' memo_empty st)
+        | _, _, _ => bad_args
+        end
+    | _ => bad_args end
+  else if fn_is "taproot_sig_rule" fn then
+    match args with
+    | [VB sg] =>
+        match taproot_sig_hash_type sg with
+        | Some (s64, ht) => VL [VL [VB s64; VI ht]]
+        | None => VL []
         end
     | _ => bad_args end
   else bad_args.
